@@ -63,13 +63,37 @@ def add_pt_module(u, ctx):
         U.add_external_derive(sp)
         u.add_splice(sp)
     # the one trait + impl of pt.rs that solstat's own code calls on parse-tree values (Expression::loc()):
-    # included verbatim as EXTERNAL (unverified) code; its contract is the assume_specification in unit_det.STD_SPECS
+    # copied verbatim and VERIFIED against the spec twin `code_loc` generated from the Expression type definition.
+    # Insertions: a spec method carrying the precondition (non-empty string / hex literal piece lists: `v[0]`)
+    # in the trait, `requires` on the method declaration, and the `ensures` on the impl's method.
     for it in ctx.tt.items:
-        if (it.kind == "trait" and it.name == "CodeLocation") or (it.kind == "impl" and it.name.replace(" ", "") == "CodeLocationforExpression"):
+        if it.kind == "trait" and it.name == "CodeLocation":
             sp = U.Splice(it)
-            U.add_attr(sp, "#[verifier::external]", "attr:external")
+            ts = it.toks
+            bo = [k for k, t in enumerate(ts) if t.text == "{"][0]
+            bc = rs.match_close(ts, bo)
+            sp.after_tok(ts[bo], "\n    spec fn vx_loc_pre(&self) -> bool;", "spec:loc-pre")
+            semi = [k for k in range(bo, bc) if ts[k].text == ";"]
+            if len(semi) != 1:
+                raise LostAnchor("trait CodeLocation no longer has exactly one method declaration")
+            sp.before_tok(ts[semi[0]], " requires self.vx_loc_pre()", "ob:pre:CodeLocation_loc")
+            u.add_splice(sp)
+        elif it.kind == "impl" and it.name.replace(" ", "") == "CodeLocationforExpression":
+            sp = U.Splice(it)
+            bo = it.body_open if it.body_open is not None else [k for k, t in enumerate(it.toks) if t.text == "{"][0]
+            sp.after_tok(it.toks[bo], "\n    open spec fn vx_loc_pre(&self) -> bool { crate::code_loc_pre(*self) }", "spec:loc-pre")
+            inner = [f for f in it.inner_items() if f.kind == "fn" and f.name == "loc"]
+            if len(inner) != 1:
+                raise LostAnchor("impl CodeLocation for Expression: fn loc not found")
+            fn = inner[0]
+            ts = fn.toks
+            # R1 on the inner fn (absolute offsets are shared with the impl item)
+            po, pc, arrow = U.sig_parts(fn)
+            sp.before_tok(ts[arrow + 1], "(r: ", "sig")
+            sp.after_tok(ts[fn.body_open - 1], ")\n        ensures r == crate::code_loc(*self)\n    ", "ob:post:Expression_loc")
             u.add_splice(sp)
     u.raw("} // mod pt\n\n", "ptmod")
+    u.raw(ptspec.code_loc_spec(ctx.tt), "spec:generated:code_loc")
 
 
 GENERIC_SPEC = """
